@@ -536,7 +536,7 @@ unary_op!(
                 Some(x) => x,
                 None => return Val::Error(exerr!("cannot compute factorial of {:?}", a)),
             };
-            let res = (1usize..(a_usize_unpacked + 1usize))
+            let res = (1usize..=a_usize_unpacked)
                 .map(I::from)
                 .try_fold(I::one(), |a, b| b.and_then(|b| a.checked_mul(&b)));
             match res {
